@@ -358,7 +358,15 @@ pub fn run(ctx: &mut Ctx) {
     let m = ctx.size(6_000, 2_000_000);
     ctx.cases("random_api_pairs", m, |ctx, rng, _| {
         let a = if rng.chance(1, 4) { rng.pick(&u).clone() } else { UVal { label: "random", v: crate::vals::random_value(rng, 0) } };
-        let b = if rng.chance(1, 4) { rng.pick(&u).clone() } else { UVal { label: "random", v: crate::vals::random_value(rng, 0) } };
+        let mut b = if rng.chance(1, 4) { rng.pick(&u).clone() } else { UVal { label: "random", v: crate::vals::random_value(rng, 0) } };
+        if rng.chance(1, 5) {
+            // a near miss of `a`: the adjacent double, its text, the same array with one more key, the same text
+            // with a blank - what a tolerance, a shortcut or a forgotten field would take for equal
+            if let Some(v) = crate::vals::near_miss(rng, &a.v) {
+                b = UVal { label: "random", v };
+                ctx.count("near_miss_pairs_api");
+            }
+        }
         ctx.count("random_pairs_api");
         ctx.nontrivial(hash_str(&format!("{:?}{:?}", a.v, b.v)));
         api_pair(ctx, &a, &b);
